@@ -155,7 +155,8 @@ impl Proj {
                 let payload = match e.payload.as_str() {
                     "lit_str" => "\"text\"".to_string(),
                     "lit_int" => "7".to_string(),
-                    "call" => "compute()".to_string(),
+                    // every other untypable payload is a call of a module-qualified free function
+                    "call" => if k % 2 == 1 || e.event == "untyped-first-site" { "payloads::progress(7)".to_string() } else { "compute()".to_string() },
                     p if p.starts_with("struct:") => format!("{} {{ ..Default::default() }}", &p[7..]),
                     p if p.starts_with("param:") => {
                         let idx: usize = p[6..].parse().unwrap();
